@@ -89,10 +89,12 @@ def gen_steps(rng, info, n, p_opt, allow_gen_interleave=True, p_reopen=0.15):
             continue
         cands = [("compileTTF", 24), ("compileOTF", 24), ("compileInterpolatableTTFs", 10)]
         if info["has_ds"]:
+            # the singular functions reject designspaces that define several variable fonts
+            one, many = (9, 5) if len(info.get("vf_names") or []) <= 1 else (2, 12)
             cands += [("compileInterpolatableTTFsFromDS", 8), ("compileInterpolatableOTFsFromDS", 7),
-                      ("compileVariableTTF", 9), ("compileVariableTTFs", 5)]
+                      ("compileVariableTTF", one), ("compileVariableTTFs", many)]
             if info["n_sources"] >= 2:
-                cands += [("compileVariableCFF2", 8), ("compileVariableCFF2s", 4)]
+                cands += [("compileVariableCFF2", one - 1), ("compileVariableCFF2s", many - 1)]
         op = _wchoice(rng, cands)
         st = {"op": op, "opts": ops.gen_opts(rng, op, info, frefs, wrefs, p_opt)}
         if op in ops.STATIC_OPS:
